@@ -114,7 +114,7 @@ def check_writer(chk, prog, cfg):
             # every ADT field occurs exactly once
             adt_fields = [f["name"] for f in prog.adts[path]["variants"][0]["fields"]]
             detail = "writes %s; V14: %s" % (got, want)
-            if got != want:
+            if [x for x in got if x[1] != "phantom"] != [x for x in want if x[1] != "phantom"]:
                 # pin down the first difference
                 for k in range(max(len(got), len(want))):
                     a = got[k] if k < len(got) else None
@@ -122,7 +122,12 @@ def check_writer(chk, prog, cfg):
                     if a != w:
                         detail = "position %d: writes %s, the V14 layout has %s (full: %s)" % (k, a, w, got)
                         break
-            chk.expect(got == want and sorted(adt_fields) == sorted(f for f, _ in got), "R6.1", "type:" + short, where, detail, cfg)
+            # a PhantomData member is the empty production: writing it or not is the same bytes
+            markers = {f["name"] for f in prog.adts[path]["variants"][0]["fields"] if prog.ty_is_adt(f["ty"], "core::marker::PhantomData")}
+            got_np = [x for x in got if x[1] != "phantom"]
+            want_np = [x for x in want if x[1] != "phantom"]
+            names = [f for f, _ in got]
+            chk.expect(got_np == want_np and sorted(set(names) | markers) == sorted(adt_fields) and len(set(names)) == len(names), "R6.1", "type:" + short, where, detail, cfg)
         else:
             want = V14_ENUM.get(short)
             if want is None:
